@@ -183,6 +183,10 @@ Definition cc_mask_nonzero (c : cc) : bool :=
 Fixpoint find_eq (l : bytes) (i : N) : option N :=
   match l with [] => None | c :: r => if c =? 61 then Some i else find_eq r (i + 1) end.
 
+(* `nlen` (the '=' position within the item, else ilen) and the directive type found by ccTypeByName(SBuf(item, nlen)) *)
+Definition item_nlen (it : bytes) : N := match find_eq it 0 with Some i => i | None => lenN it end.
+Definition item_type (it : bytes) : N := cc_type_by_name (takeN (item_nlen it) it).
+
 (* the `!p || !httpHeaderParseInt(p, &x) || x < 0` test shared by the delta-seconds directives *)
 Definition int_arg (p : option bytes) : option Z :=
   match p with
@@ -194,10 +198,9 @@ Definition int_arg (p : option bytes) : option Z :=
 Definition cc_step (c : cc) (itc : bytes * bytes) : cc :=
   let '(it, ctx) := itc in
   let ilen := lenN it in
-  let eqpos := find_eq it 0 in
-  let nlen := match eqpos with Some i => i | None => ilen end in
-  let p : option bytes := match eqpos with Some i => Some (dropN (i + 1) ctx) | None => None end in
-  let t := cc_type_by_name (takeN nlen it) in
+  let nlen := item_nlen it in
+  let p : option bytes := match find_eq it 0 with Some i => Some (dropN (i + 1) ctx) | None => None end in
+  let t := item_type it in
   if cc_isset c t && negb (t =? CC_OTHER) then c        (* duplicate: ignored *)
   else if t =? CC_MAX_AGE then
     {| m_public := m_public c; m_private := m_private c; m_no_cache := m_no_cache c; m_no_store := m_no_store c;
